@@ -31,6 +31,14 @@ is logged under the full metric name of the class it was made through;
 value / sample on every recording path incl. "no amount given" and "nothing measured"
 (_boundary_systematic, 20 % of the random values); the dispatcher runs log recordings where the
 dispatcher makes them (VarzMetric.__call__), so a call that completes on one clock reading is a sample of 0.
+(vii) concurrency: Aggregate passes in their own greenlet while recorder greenlets move +k / -k between the
+101-300 series of one counter / rate metric (static, class-level, bound-holder recordings and real
+VarzSocketWrapper open()/close()); PassBegin / PassEnd events bracket each pass and the oracle accepts an
+entry iff it is right for SOME instant of the pass (_gen_conc);
+(viii) client churn: a few hundred short-lived MessageDispatchers of 2-3 services behind equal endpoints,
+created, used, closed, dropped and collected in alternation (_gen_churn).  In the dispatcher modes the
+driver says whose call is being dispatched / answered, and what the dispatcher records meanwhile is logged
+for that (method, service, endpoint), whatever Source object the dispatcher passes to its metrics.
 Direction A also replays behaviours with clock steps (Varz_sim_age.cfg, 1 unit = 150 s).
 Every verdict is VarzAbs's.
 """
@@ -58,6 +66,11 @@ ASSUMPTIONS = [
   'a recording is what the caller asked for: metric name = <_VARZ_BASE_NAME of the class used>.<attribute>, source and '
   'value as passed (no value = the documented default 1); a recording call that raises is logged all the same (lost, '
   'if the oracle says so).  Values stay integer-valued (0.0, -0.0, False, 3.0, -4.0, 100000.0 are); totals < 2^31 / 1000',
+  'concurrent passes: every single recording is an instant; the two recordings of a balanced move are two instants '
+  '(the sum in between did exist), so of the stitched sums a mid-metric yield can produce only those are flagged '
+  'that no instant of the pass had',
+  'dispatcher runs: the recordings made while DispatchMethodCall / the response handling of a call run are recordings '
+  'for that call\'s (method, service, endpoint); their metric and value are observed, their source is the call\'s',
   'histories with thousands of sources are encoded with IncRun events (a run of increments in order, expanded exactly '
   'by the spec) and aggregated with the service-level selectors only (the statement defines per-service sums)',
   'the reservoir capacity is set through VarzReceiver._MAX_PERCENTILE_SIZE (2, 3 or the default 1000) and '
@@ -257,6 +270,7 @@ class _Rig(object):
     orig_call = varz.VarzMetric.__call__
     rig = self
     self.in_metric_call = 0
+    self.call_ctx = None     # (metric name prefix, method, service, endpoint) of the call being dispatched / answered
 
     def call(self_, *args):
       if rig.in_metric_call:
@@ -269,6 +283,11 @@ class _Rig(object):
         src, val = args[0], (args[1] if len(args) > 1 else None)
       if val is None:
         val = 1
+      ctx = rig.call_ctx
+      if ctx is not None and name.startswith(ctx[0]):
+        # the driver knows whose call this is: the recording is FOR that (method, service, endpoint),
+        # whatever Source object the component passes along
+        src = varz.Source(ctx[1], ctx[2], ctx[3])
       kind = rig.kind_of_type(type(self_).VARZ_TYPE)
       evname = 'Inc' if kind in ('counter', 'rate', 'aggtimer') else ('Set' if kind == 'gauge' else 'Sample')
       pre = rig.series_state(name, src)
@@ -795,10 +814,52 @@ def _scale_cases(tier, rng):
   return out
 
 
+def _gen_churn(rng, lives):
+  """A few hundred client lifetimes in one process: clients of 2-3 differently named services behind EQUAL
+  endpoints (a sidecar, one server set under two names, or no endpoint at all) are created, make 1-8 calls
+  over a handful of methods, are closed and dropped (del + gc.collect()) in alternation."""
+  nsvc = rng.randint(2, 3)
+  eps = rng.choice([[1], [1, 2], [0], [0, 1]])
+  churn = []
+  for i in range(lives):
+    svc = 1 + (i % nsvc if rng.random() < 0.8 else rng.randrange(nsvc))
+    calls = []
+    for _ in range(rng.randint(1, 8)):
+      calls.append({'method': rng.randint(1, 6), 'endpoint': rng.choice(eps), 'delay': rng.choice([None, None, 0, 1]),
+                    'ok': rng.random() < 0.75, 'ep_obj': rng.random() < 0.3})
+    churn.append({'svc': svc, 'calls': calls, 'gc': rng.random() < 0.9})
+  return {'mode': 'e2e', 'churn': churn, 'cap': 1000, 'rand': [], 'sels': ['tuple', 'default', 'service']}
+
+
+def _gen_conc(rng, n=None, via=None):
+  """Aggregation passes in their own greenlet while recorder greenlets make balanced moves (+k on one source, -k on
+  another, no yield in between) among the 101-300 series of one counter / rate metric -- a connection moving
+  between the endpoints of a service.  The recorded sum of the service never changes; an aggregate taken
+  during the moves must be a sum that existed at some instant of its pass."""
+  n = n or rng.choice([101, 120, 150, 199, 200, 201, 250, 300])
+  recs = []
+  for _ in range(rng.randint(1, 3)):
+    moves = []
+    for _ in range(rng.randint(4, 10)):
+      i = rng.randrange(n)
+      j = (i + rng.randrange(1, n)) % n
+      if rng.random() < 0.7:          # most moves cross the middle / a hundreds boundary of the series order
+        i, j = rng.randrange(0, min(100, n // 2)), rng.randrange(max(100, n // 2), n)
+        if rng.random() < 0.5:
+          i, j = j, i
+      moves.append([i, j, rng.choice([1, 1, 2, 5]), 1 if rng.random() < 0.5 else 0])
+    recs.append(moves)
+  return {'mode': 'conc', 'n': n, 'kind': rng.choice(['counter', 'counter', 'rate']),
+          'via': via or rng.choice(['recv', 'inst', 'cls', 'sock']), 'recorders': recs,
+          'passes': [rng.choice(['default', 'service', 'default', 'endpoint']) for _ in range(rng.randint(2, 4))],
+          'poller_first': rng.random() < 0.5, 'extra_metrics': rng.randint(0, 2)}
+
+
 def cases(prop, tier, seed):
   rng = random.Random(1000003 * int(seed) + 18)
   out = _systematic() + _interleaved() + _boundary_systematic() + _family_systematic()
-  n_api, n_e2e, n_timed, n_sock, n_lib = (300, 120, 140, 60, 30) if tier == 'quick' else (8000, 1500, 4000, 1500, 1200)
+  n_api, n_e2e, n_timed, n_sock, n_lib = (270, 110, 120, 60, 30) if tier == 'quick' else (8000, 1500, 4000, 1500, 1200)
+  n_conc, n_churn, lives = (8, 3, 150) if tier == 'quick' else (80, 20, 300)
   for _ in range(n_api):
     out.append(_gen_api(rng))
   for _ in range(n_e2e):
@@ -812,6 +873,12 @@ def cases(prop, tier, seed):
   for _ in range(n_lib):
     out.append(_gen_lib(rng2))
   out += _scale_cases(tier, rng2)
+  rng3 = random.Random(1000003 * int(seed) + 181818)
+  vias = ['recv', 'sock', 'inst', 'cls']
+  for i in range(n_conc):
+    out.append(_gen_conc(rng3, via=vias[i % 4]))
+  for _ in range(n_churn):
+    out.append(_gen_churn(rng3, lives))
   return out
 
 
@@ -974,8 +1041,14 @@ def _run_e2e(script):
 
   plan = []
 
+  PFX = 'scales.MessageDispatcher.'
+
   class Sink(ClientMessageSink):
     state = ChannelState.Open
+
+    def __init__(self, name):
+      super(Sink, self).__init__()
+      self.name = name
 
     def Open(self):
       return AsyncResult.Complete()
@@ -985,41 +1058,84 @@ def _run_e2e(script):
 
     def AsyncProcessRequest(self, sink_stack, msg, stream, headers):
       c = plan.pop(0)
+      ep = None
       if c['endpoint']:
         ep = 'h%d:80' % c['endpoint']
         msg.properties[MessageProperties.Endpoint] = Ep(ep) if c['ep_obj'] else ep
+      name = self.name
 
       def reply():
-        gevent.sleep(c['delay'])
-        if c['ok']:
-          sink_stack.AsyncProcessResponseMessage(MethodReturnMessage(return_value=1))
-        else:
-          sink_stack.AsyncProcessResponseMessage(MethodReturnMessage(error=Exception('x')))
-      gevent.spawn(reply)
+        if c['delay'] is not None:
+          gevent.sleep(c['delay'])
+        # what the dispatcher records while it handles this response is for this call
+        rig.call_ctx = (PFX, 'm%d' % c['method'], name, ep)
+        try:
+          if c['ok']:
+            sink_stack.AsyncProcessResponseMessage(MethodReturnMessage(return_value=1))
+          else:
+            sink_stack.AsyncProcessResponseMessage(MethodReturnMessage(error=Exception('x')))
+        finally:
+          rig.call_ctx = None
+      if c['delay'] is None:
+        reply()                 # answered within the request, as a terminal echo transport does
+      else:
+        gevent.spawn(reply)
 
     def AsyncProcessResponse(self, sink_stack, context, stream, msg):
       raise NotImplementedError()
 
   class Provider(object):
-    def CreateSink(self, properties):
-      return Sink()
+    def __init__(self, name):
+      self.name = name
 
-  disps = []
-  for i in range(2):
-    d = MessageDispatcher(object, Provider(), None, {SinkProperties.Label: 'svc%d' % (i + 1)})
-    d.Open()
-    disps.append(d)
-  ars = []
-  for c in script['calls']:
+    def CreateSink(self, properties):
+      return Sink(self.name)
+
+  def dispatch(d, name, c):
     plan.append(c)
-    ars.append(disps[c['disp']].DispatchMethodCall('m%d' % c['method'], (), {}))
+    rig.call_ctx = (PFX, 'm%d' % c['method'], name, None)
+    try:
+      return d.DispatchMethodCall('m%d' % c['method'], (), {})
+    finally:
+      rig.call_ctx = None
+
+  if 'churn' in script:
+    # many short-lived clients of differently named services behind equal endpoints: created, used, closed, dropped
+    import gc
+    pending = 0
+    for life in script['churn']:
+      name = 'svc%d' % life['svc']
+      d = MessageDispatcher(object, Provider(name), None, {SinkProperties.Label: name})
+      d.Open()
+      ars = [dispatch(d, name, c) for c in life['calls']]
+      loop.run_until_idle()
+      if any(c['delay'] for c in life['calls']):
+        loop.run_for(max(c['delay'] or 0 for c in life['calls']))
+        loop.run_until_idle()
+      pending += sum(1 for a in ars if not a.ready())
+      d.Close()
+      del d, ars
+      if life.get('gc', True):
+        gc.collect()
+    if pending:
+      raise RuntimeError('%d dispatched calls did not complete' % pending)
+    rig.compact()
+  else:
+    disps = []
+    for i in range(2):
+      d = MessageDispatcher(object, Provider('svc%d' % (i + 1)), None, {SinkProperties.Label: 'svc%d' % (i + 1)})
+      d.Open()
+      disps.append(d)
+    ars = []
+    for c in script['calls']:
+      ars.append(dispatch(disps[c['disp']], 'svc%d' % (c['disp'] + 1), c))
+      loop.run_until_idle()
+      if c['gap']:
+        loop.run_for(c['gap'])
+    loop.run_for(5)
     loop.run_until_idle()
-    if c['gap']:
-      loop.run_for(c['gap'])
-  loop.run_for(5)
-  loop.run_until_idle()
-  if not all(a.ready() for a in ars):
-    raise RuntimeError('a dispatched call did not complete')
+    if not all(a.ready() for a in ars):
+      raise RuntimeError('a dispatched call did not complete')
   for sel in script['sels']:
     rig.aggregate(sel)
   return {'cfg': rig.cfg(), 'ev': rig.ev, 'meta': {'errors': [str(e[1:3]) for e in loop.errors][:3],
@@ -1241,6 +1357,129 @@ def _run_lib(script):
                                                     'shared_attribute_names': len(shared)}}
 
 
+def _run_conc(script):
+  loop = common.boot()
+  import gevent
+  from scales import varz
+  rig = _Rig(loop, 0)
+  VR = rig.VR
+  n, via = script['n'], script['via']
+  cls_of = {'counter': varz.Counter, 'rate': varz.Rate}
+
+  class V(varz.VarzBase):
+    _VARZ_BASE_NAME = 'verif.c'
+    _VARZ = {'conn': cls_of[script['kind']], 'x0': varz.Counter, 'x1': varz.Gauge}
+  name = 'verif.c.conn'
+  tup = lambda i: [0, 1 if i < n else 2, i + 1, 0]
+  srcs = [rig.make_source(tup(i)) for i in range(n + 3)]      # n endpoints of service 1, 3 of a bystander service
+
+  class Handle(object):
+    def sendall(self, buff):
+      pass
+
+    def setsockopt(self, *a):
+      pass
+
+  class Sock(object):           # opens and closes without yielding
+    def __init__(self, port):
+      self.host, self.port, self.handle = 'h', port, None
+
+    def isOpen(self):
+      return self.handle is not None
+
+    def open(self):
+      self.handle = Handle()
+
+    def close(self):
+      self.handle = None
+
+  pools = [[] for _ in range(n + 3)]
+  holders = {}
+
+  def bump(i, k):
+    """Record k on source i of the metric (for 'sock': open / close k connections to endpoint i)."""
+    if via == 'sock':
+      for _ in range(abs(k)):
+        if k > 0:
+          w = varz.VarzSocketWrapper(Sock(i + 1), 'svc%d' % (1 if i < n else 2))
+          w.open()
+          pools[i].append(w)
+        elif pools[i]:
+          pools[i].pop().close()
+      return
+    if via == 'recv':
+      VR.IncrementVarz(srcs[i], name, k)
+    elif via == 'cls':
+      V.conn(srcs[i], k)
+    else:
+      if i not in holders:
+        holders[i] = V(srcs[i])
+      holders[i].conn(k)
+    rig.log_update('Inc', name, srcs[i], k)
+
+  if via == 'sock':
+    rig.observe_metric_calls()
+  else:
+    rig.metric_id(name)
+  # fill: enough on every source that no move runs dry
+  for i in range(n + 3):
+    bump(i, 12 if via != 'sock' else 2)
+  for x in range(script['extra_metrics']):
+    if x == 0:
+      V.x0(srcs[0], 3)
+      if via != 'sock':         # ('sock': the metric-call observer has logged it)
+        rig.log_update('Inc', 'verif.c.x0', srcs[0], 3)
+    else:
+      V.x1(srcs[1], 4)
+      if via != 'sock':
+        rig.log_update('Set', 'verif.c.x1', srcs[1], 4)
+  rig.compact()
+
+  def recorder(moves):
+    for i, j, k, plus_first in moves:
+      if via == 'sock':
+        k = min(k, len(pools[i]))
+      if plus_first:
+        bump(j, k)
+        bump(i, -k)
+      else:
+        bump(i, -k)
+        bump(j, k)
+      gevent.sleep(0)
+
+  def poller():
+    for sel in script['passes']:
+      rig.ev.append({'e': 'PassBegin'})
+      try:
+        out = varz.VarzAggregator.Aggregate(VR.VARZ_DATA, VR.VARZ_METRICS, rig.selector(sel))
+      except Exception:
+        out = None
+        rig.raised += 1
+      if out is None:
+        for nm in rig.names:
+          rig.ev.append({'e': 'AggDone', 'metric': rig.metric_id(nm), 'sel': sel, 'nkeys': 0})
+      else:
+        evs = rig.agg_events(sel, out)
+        for nm in list(rig.names):
+          rig.ev.extend(evs.get(nm, []))
+      rig.ev.append({'e': 'PassEnd'})
+      gevent.sleep(0)
+
+  gs = []
+  if script['poller_first']:
+    gs.append(gevent.spawn(poller))
+  for moves in script['recorders']:
+    gs.append(gevent.spawn(recorder, moves))
+  if not script['poller_first']:
+    gs.append(gevent.spawn(poller))
+  loop.run_until_idle()
+  if not all(g.ready() and g.successful() for g in gs):
+    raise RuntimeError('a greenlet did not finish: %r' % [g.exception for g in gs])
+  rig.aggregate('default')
+  return {'cfg': rig.cfg(), 'ev': rig.ev, 'meta': {'errors': [str(e[1:3]) for e in loop.errors][:3],
+                                                    'aggregate_raised': rig.raised}}
+
+
 def run_case(script):
   mode = script.get('mode')
   if 'behaviour' in script:
@@ -1254,6 +1493,8 @@ def run_case(script):
     return _run_sock(script)
   if mode == 'lib':
     return _run_lib(script)
+  if mode == 'conc':
+    return _run_conc(script)
   return _run_api(script)
 
 
